@@ -126,7 +126,7 @@ pub fn negamax(
     let is_threefold = history
         .iter()
         .rev()
-        .take(pos.halfmoves as usize)
+        .take(pos.halfmoves as usize + 1)
         .step_by(2)
         .filter(|hash| **hash == pos.hash)
         .count()
